@@ -339,8 +339,8 @@ func (s *sigCtx) offer(c *core.Case, r *rand.Rand, ns namedSig, ec bool) {
 	case 1:
 		p := *s.prop
 		p.Signature = ns.b
-		g("setProposal-check", func() bool { return len(proposalAccepts(&p, s.chain, s.k.addr, false)) > 0 })
-		g("ProposalFromProto+setProposal-check", func() bool { return len(proposalAccepts(&p, s.chain, s.k.addr, true)) > 1 })
+		g("setProposal-check", func() bool { a, _ := proposalAccepts(&p, s.chain, s.k.addr, false); return len(a) > 0 })
+		g("ProposalFromProto+setProposal-check", func() bool { a, _ := proposalAccepts(&p, s.chain, s.k.addr, true); return len(a) > 1 })
 	default:
 		s.offerTx(c, r, ns, ec, &calls)
 	}
@@ -460,7 +460,7 @@ func sigStructured(c *core.Case) {
 				c.Run.Count("tx_wire_undecodable", 1)
 				continue
 			}
-			for _, sg := range []signerSpec{s.sg, {Kind: skHomestead}, {skChainID, new(big.Int).Sub(new(big.Int).Lsh(big1, 63), big.NewInt(17))}} {
+			for _, sg := range []signerSpec{s.sg, {Kind: skHomestead}, {Kind: skChainID, Chain: new(big.Int).Sub(new(big.Int).Lsh(big1, 63), big.NewInt(17))}} {
 				sg := sg
 				c.Run.Eval(1)
 				c.Run.Count("sigs_offered", 1)
@@ -473,7 +473,7 @@ func sigStructured(c *core.Case) {
 		}
 	}
 	c.Run.Nontrivial(fmt.Sprintf("%s/%d", c.Group, c.I))
-	if c.I < 3 {
+	if c.I < 2 {
 		c.Run.Sample(map[string]interface{}{"kind": "structured signatures", "case": c.I, "message_kind": []string{"vote", "proposal", "transaction"}[s.kind],
 			"variants": len(vars), "example_variant": vars[1+c.I].name, "example_bytes": hex.EncodeToString(vars[1+c.I].b)})
 	}
